@@ -67,6 +67,9 @@ def write_inputs(fs, root):
     ref2.write_symfs(fs, posixpath.join(root, 'plt2d'))
     chk.write_symfs(fs, posixpath.join(root, 'chk00005'))
     chk.write_symfs(fs, posixpath.join(root, 'restart7'))
+    # a checkpoint whose reference plotfile (for the species names) sits exactly where the default output would go
+    chk.write_symfs(fs, posixpath.join(root, 'chk00077'))
+    Ref('t', 3, ['temp', 'Y(H2)', 'density', 'Y(O2)'], (1, 1, 1), [[((0, 0, 0), (0, 0, 0))]]).write_symfs(fs, posixpath.join(root, 'plt00077'))
 
 
 def trunc_samples(bf):
@@ -162,6 +165,9 @@ def invocations(form):
     inv('chk2plt-default', [pc], lambda m: m['amr_kitchen.chk2plt.chk2plt'].chk2plt(sp(pc), species=['H2', 'O2'], gradp=False), [posixpath.join(root, 'plt00005')])
     pr = posixpath.join(root, 'restart7')
     inv('chk2plt-default-noprefix', [pr], lambda m: m['amr_kitchen.chk2plt.chk2plt'].chk2plt(sp(pr), species=['H2', 'O2'], gradp=False), [pr + '_plt'])
+    p77, r77 = posixpath.join(root, 'chk00077'), posixpath.join(root, 'plt00077')
+    inv('chk2plt-default-onto-reference', [p77, r77], lambda m: m['amr_kitchen.chk2plt.chk2plt'].chk2plt(sp(p77), target_plotfile=sp(r77), gradp=False), [],
+        fail='the default output is the reference plotfile itself')
     # ---- marinate (default only), read-only tools
     inv('marinate', [p3], argv_call('amr_kitchen.marinate', ['marinate', sp(p3)]), [p3 + '.pkl'])
     inv('menu', [p3], lambda m: m['amr_kitchen.menu.menu'].Menu(sp(p3), min_max=True), [])
@@ -173,6 +179,8 @@ def invocations(form):
     inv('colander/unreadable', [p3], BY['colander'], [out], fail='unreadable', setup=lambda fs: fs.remove(posixpath.join(p3, 'Level_1', 'Cell_D_00000')))
     inv('combine/unreadable', [p3, p3b], BY['combine'], [out], fail='unreadable', setup=lambda fs: fs.remove(posixpath.join(p3b, 'Level_0', 'Cell_H')))
     inv('chef/unreadable', [p3], BY['chef'], [out], fail='unreadable', setup=lambda fs: fs.remove(posixpath.join(p3, 'Level_0', 'Cell_D_00000')))
+    inv('colander/unknown-field', [p3], lambda m: m['amr_kitchen.colander.colander'].Colander(plotfile=sp(p3), limit_level=None, output=out, variables=['a', 'nope'],
+                                                                                            allow_missing=False).strain(), [out], fail='unknown-field')
     inv('mandoline/unknown-field', [p3], lambda m: M(m)(sp(p3), fields=['nope'], serial=True, verbose=0).slice(normal=1, pos=1.4, outfile=out, fformat='array'), [out + '.npz'], fail='unknown-field')
     inv('mandoline/unreadable', [p3], BY['mandoline-array'], [out + '.npz'], fail='unreadable', setup=lambda fs: fs.remove(posixpath.join(p3, 'Level_0', 'Cell_D_00000')))
     inv('whip/unknown-field', [p3], argv_call('amr_kitchen.whip.cli', ['whip', '--variable', 'nope', '--nochecks', '--outfile', out, sp(p3)]), [out + '.npy'], fail='unknown-field')
